@@ -22,6 +22,7 @@ RULE = (
     "pass over every RUN inside ecb.b09. Non-trivial: a RUN with >= 1 non-literal argument; distinct by (procedure, argument kind vector, "
     "argument shape classes)"
 )
+RULE += ' Also: the statement templates of C07 with operands that need temporaries, in nine block contexts (complete enumeration); declared string sizes across every library-internal hand-over of a string variable.'
 ASSUMPTIONS = [
     "argument kinds are inferred from literals, '$' suffixes, function result kinds and the output's own DIM/TYPE lines; BASIC09 passes REAL/INTEGER/BYTE "
     "interchangeably only by value semantics, so only the string / numeric / record distinction is judged",
